@@ -196,6 +196,25 @@ CHECKS = {
              "not modelled.",
         tech="Lean 4 proof over the urllib model (href algebra) + invariant proof over starts + differential correspondence",
         ref="5/C18"),
+    "C04": dict(
+        text="Partial. The on-disk pieces of one store write and the ordered micro-steps the code performs on them are "
+             "modelled in Lean for tree-git, bare-git and vdir (index.lock, in-place working-tree write, loose objects "
+             "and refs through lock+rename, pack+idx, reflog, index rename; tmp+replace); proved for every prior state "
+             "without dangling references, every operation (create, replace, same bytes, delete; a property is the "
+             "member .xandikos or, for vdir, its own file) and every number of completed micro-steps — cuts inside "
+             "plain writes included: a newly started server reads the old member set or the new one, nothing else; "
+             "every other member is unchanged; no ref or index entry names a missing object; the completed operation "
+             "reads as the new state. The in-place metadata write the repair removed is proved NOT atomic (witness). "
+             "Tied to /repo by stopping real operations before every file-system mutation (audit hook), copying the "
+             "directory, cutting in-place files, and auditing each copy in a fresh process; the recorded event sequence "
+             "must equal the model's plan and every crash state's old/new verdict the model's.",
+        note="partial: process death with an intact page cache only — power loss (the code never calls fsync), "
+             "reordering of directory updates, and crashes inside a single dulwich file-system call are not modelled; "
+             "SHA-1 is taken as injective; a stale index.lock left by a crash (later writes answer 'locked') is "
+             "counted, not judged — the property does not speak about liveness after the crash.",
+        tech="Lean 4 proof over a micro-step crash model + fault enumeration of the real code at every file-system call "
+             "with fresh-process audit (correspondence of plan and of every crash state)",
+        ref="5/C04"),
 }
 
 NOT_YET = {}
